@@ -346,6 +346,8 @@ def cli_output(F, rep):
             break
     if pdf_fn is None and _value_defaulted_pdf(F, rep, bodies, builds_default):
         return
+    if pdf_fn is None and _variant_tagged_pdf(F, rep, bodies, builds_default):
+        return
     if pdf_fn is None:
         rep.unresolved("R4", "pdf-default-path", "default PDF path construction or its write not found in the CLI crate")
         return
@@ -377,6 +379,75 @@ def cli_output(F, rep):
             else:
                 why = "a path from the default-path construction reaches the write without passing exists()"
         rep.ob("R4", "main:pdf-overwrite-guard", ok, why, main.loc(wt["sp"]), key="R4:main:pdf-overwrite-guard")
+
+
+def _variant_tagged_pdf(F, rep, bodies, builds_default):
+    """fourth spelling: the destination is an enum whose variant says whether the path was requested or derived
+    (`PdfDestination::Derived(single.with_extension("pdf"))`). The write sits in a function that receives the enum; it must be
+    dominated by the success of a guard call on the same value whose body, on the edge of every default-carrying variant, tests
+    `exists()` on the payload and cannot return Ok from the true edge. Returns True when this spelling was found."""
+    from roles import guards_of
+    tagged = {}     # adt -> set of variant names built from a default path
+    for b in bodies:
+        dflt_blocks = set(builds_default(b))
+        if not dflt_blocks:
+            continue
+        tb = Terms(F, b, inline_depth=0)
+        for i, si, s in b.assigns():
+            rv = s["rv"]
+            if rv["k"] == "agg" and rv["adt"].startswith("cgt_tool::") and rv.get("variant") and rv["ops"]:
+                payload = tb.operand(rv["ops"][0])
+                txt = show(payload)
+                if "with_extension" in txt or ".pdf" in txt or any(F.bodies.get(x[1]) is not None and builds_default(F.bodies[x[1]])
+                                                                    for x in subterms(payload) if isinstance(x, tuple) and x and x[0] == "call"):
+                    tagged.setdefault(rv["adt"], set()).add(rv["variant"])
+    if not tagged:
+        return False
+    found = False
+    for wb in bodies:
+        writes = [(i, t) for i, t in wb.calls() if t["callee"] == "std::fs::write"]
+        etypes = [adt for adt in tagged if any(adt.split("::")[-1] in wb.local_ty(k + 1) for k in range(wb.argc))]
+        if not writes or not etypes:
+            continue
+        adt = etypes[0]
+        names = [v["name"] for v in (F.adts.get(adt) or {"variants": []})["variants"]]
+        for wi, wt in writes:
+            found = True
+            ok, why = False, "no guard call on the destination dominates the write"
+            for ci, ct in wb.calls():
+                g = F.bodies.get(ct["callee"])
+                if g is None or g.crate != "cgt_tool" or not wb.dominates(ci, wi) or ci == wi or "Result" not in g.ret:
+                    continue
+                if not any(adt.split("::")[-1] in g.local_ty(k + 1) for k in range(g.argc)):
+                    continue
+                # the `?` on the guard's result: the write is not reachable from the Break edge
+                gt = Terms(F, g, inline_depth=0)
+                guard_ok = True
+                seen_variants = set()
+                for ei, et in g.calls():
+                    if et["callee"] != "std::path::Path::exists" or et.get("target") is None or g.term(et["target"])["k"] != "switch":
+                        continue
+                    sw = g.term(et["target"])
+                    from_true = g.reach_from(sw["otherwise"])
+                    returns_ok = any(st["rv"]["k"] == "agg" and st["rv"].get("variant") == "Ok" and st["lhs"]["l"] == 0 for bi, _, st in g.assigns() if bi in from_true)
+                    if returns_ok:
+                        guard_ok = False
+                    for cond, val, where in guards_of(g, gt, ei):
+                        if isinstance(cond, tuple) and cond and cond[0] == "discr" and val.isdigit() and int(val) < len(names):
+                            seen_variants.add(names[int(val)])
+                if guard_ok and tagged[adt] <= seen_variants:
+                    # and the caller stops on the guard's error
+                    br = [bi for bi, bt in wb.calls() if parse_callee(bt["callee"])[2] == "branch" and wb.dominates(ci, bi) and wb.dominates(bi, wi)]
+                    if br:
+                        ok = True
+                        why = (f"the write is dominated by `{g.short}(..)?`, which for the derived variant(s) {sorted(tagged[adt])} tests exists() and "
+                               "cannot return Ok when the file exists")
+                elif not guard_ok:
+                    why = f"`{g.short}` can return Ok although exists() is true"
+                else:
+                    why = f"`{g.short}` does not test exists() for the derived variant(s) {sorted(tagged[adt] - seen_variants)}"
+            rep.ob("R4", "main:pdf-overwrite-guard", ok, why, wb.loc(wt["sp"]), key="R4:main:pdf-overwrite-guard")
+    return found
 
 
 def _value_defaulted_pdf(F, rep, bodies, builds_default):
